@@ -2165,3 +2165,99 @@ Proof.
     by (split; [vm_compute; reflexivity | split; vm_compute; reflexivity]).
   split; [exact H|]. apply C05_post_reachable; [vm_compute; reflexivity | exact H].
 Qed.
+
+(* ================================================================== *)
+(* Part 7: the MU_ALL_FALSE bit, site by site (C06_allfalse, partial)  *)
+(* ================================================================== *)
+Definition af (x : Z) : bool := Z.testbit x 7.
+
+Lemma has_af x : has x MU_ALL_FALSE = af x.
+Proof.
+  unfold has, band, af. change MU_ALL_FALSE with (2 ^ 7).
+  assert (Z.land x (2 ^ 7) = if Z.testbit x 7 then 2 ^ 7 else 0) as E.
+  { apply Z.bits_inj'. intros k Hk. rewrite Z.land_spec, Z.pow2_bits_eqb by lia.
+    destruct (Z.eqb_spec 7 k) as [<-|N].
+    - rewrite andb_true_r. destruct (Z.testbit x 7) eqn:T; [symmetry; apply Z.pow2_bits_true; lia | symmetry; apply Z.bits_0].
+    - rewrite andb_false_r. destruct (Z.testbit x 7); [symmetry; apply Z.pow2_bits_false; lia | symmetry; apply Z.bits_0]. }
+  rewrite E. destruct (Z.testbit x 7); reflexivity.
+Qed.
+Lemma af_wrap y : af (wrap_u 32 y) = af y.
+Proof. unfold af, wrap_u. apply Z.mod_pow2_bits_low. lia. Qed.
+Lemma af_land x m : af (Z.land x m) = af x && af m.   Proof. apply Z.land_spec. Qed.
+Lemma af_lor x m : af (Z.lor x m) = af x || af m.     Proof. apply Z.lor_spec. Qed.
+Lemma af_compl k : 0 <= k < 4294967296 -> af (4294967295 - k) = negb (af k).
+Proof.
+  intros R. unfold af. change 4294967295 with (Z.ones 32).
+  rewrite Z.sub_nocarry_ldiff.
+  - rewrite Z.ldiff_spec, Z.ones_spec_low by lia. reflexivity.
+  - apply Z.bits_inj'. intros i Hi. rewrite Z.ldiff_spec, Z.bits_0.
+    destruct (Z.ltb_spec i 32).
+    + rewrite Z.ones_spec_low by lia. apply andb_false_r.
+    + rewrite (Z.bits_above_log2 k i); [reflexivity | lia |].
+      destruct (Z.eq_dec k 0) as [->|]; [cbn; lia|].
+      assert (Z.log2 k < 32) by (apply Z.log2_lt_pow2; lia). lia.
+Qed.
+Lemma af_wrap_compl k : af (4294967295 - wrap_u 32 k) = negb (af k).
+Proof. rewrite af_compl by apply wrap32_rng. now rewrite af_wrap. Qed.
+Lemma af_sub1 x : x mod 2 = 1 -> af (x - 1) = af x.
+Proof.
+  intros H. unfold af. rewrite !Z.testbit_eqb by lia. change (2 ^ 7) with 128.
+  f_equal. lia.
+Qed.
+
+(* every enqueue clears MU_ALL_FALSE *)
+Lemma af_lock_slow_enqueue old lw m c : has (nsync_mu_lock_slow_cas2_new old lw (lt_of m) c) MU_ALL_FALSE = false.
+Proof.
+  rewrite has_af, lock_slow_cas2_new_eq, af_wrap, af_land, af_wrap_compl, af_lor.
+  change (af 128) with true. rewrite orb_true_r. apply andb_false_r.
+Qed.
+Lemma af_wait_enqueue old st : has (nsync_spin_test_and_set_cas1_new old st MU_ALL_FALSE) MU_ALL_FALSE = false.
+Proof.
+  rewrite has_af, spin_tas_new_eq, af_wrap, af_land. change MU_ALL_FALSE with 128.
+  rewrite af_compl by lia. change (af 128) with true. apply andb_false_r.
+Qed.
+(* nsync_mu_unlock (write mode) clears it on every path that releases the lock without scanning ... *)
+Lemma af_unlock_fast : has nsync_mu_unlock_cas1_new MU_ALL_FALSE = false.
+Proof. reflexivity. Qed.
+Lemma af_unlock_cas2 old : has (nsync_mu_unlock_cas2_new old) MU_ALL_FALSE = false.
+Proof.
+  rewrite has_af, (unlock_new2_eq W old : nsync_mu_unlock_cas2_new old = _), af_wrap, af_land.
+  rewrite af_compl by lia. change (af 128) with true. apply andb_false_r.
+Qed.
+Lemma af_unlock_slow_cas1_W old : has (nsync_mu_unlock_slow_cas1_new old (lt_of W)) MU_ALL_FALSE = false.
+Proof.
+  rewrite has_af, (unlock_slow_cas1_new_eq old W), af_wrap, af_land.
+  rewrite af_compl by lia. change (af 128) with true. apply andb_false_r.
+Qed.
+(* ... while nsync_mu_unlock_without_wakeup and nsync_mu_runlock leave it as it is *)
+Lemma af_unlock_nowakeup_cas2 old : rng old -> old mod 2 = 1 ->
+  has (nsync_mu_unlock_without_wakeup_cas2_new old) MU_ALL_FALSE = has old MU_ALL_FALSE.
+Proof. intros R H. rewrite !has_af, uw_new2_eq, af_wrap. now apply af_sub1. Qed.
+Lemma af_runlock_cas2 old : has (nsync_mu_runlock_cas2_new old) MU_ALL_FALSE = has old MU_ALL_FALSE.
+Proof.
+  rewrite !has_af. change (nsync_mu_runlock_cas2_new old) with (wrap_u 32 (old - 256)). rewrite af_wrap.
+  unfold af. rewrite !Z.testbit_eqb by lia. change (2 ^ 7) with 128. f_equal. lia.
+Qed.
+(* the last CAS of nsync_mu_unlock_slow_ decides the bit from what the scan found, whatever the word held before:
+   set iff the scan kept MU_ALL_FALSE in set_on_release (every waiter it looked at had a false condition, it looked at all
+   of them, and it left no unconditional or runnable waiter behind) and some waiter remains queued *)
+Lemma af_finalize w m u old : rng old -> (u_late u = 0 \/ (u_late u = MU_WLOCK /\ old mod 2 = 1)) -> 0 <= u_set u < 256 ->
+  match snd (finalize w m u) with
+  | UsRelLoad _ f _ =>
+      has (nsync_mu_unlock_slow_cas3_new old (late f) (set_on f) (clear_on f)) MU_ALL_FALSE =
+      has (u_set u) MU_ALL_FALSE && match u_done u with [] => false | _ => true end
+  | _ => False
+  end.
+Proof.
+  intros R HL Rs. unfold finalize. cbn [snd late set_on clear_on].
+  rewrite !has_af, unlock_slow_cas3_new_eq, af_wrap, af_land, af_wrap, af_lor.
+  assert (af (wrap_u 32 (old - u_late u)) = af old) as E.
+  { rewrite af_wrap. destruct HL as [-> | [-> H]]; [now rewrite Z.sub_0_r | now apply af_sub1]. }
+  rewrite E.
+  assert (forall c, 0 <= c < 256 -> af (4294967295 - c) = negb (af c)) as K by (intros; apply af_compl; lia).
+  assert (has (u_set u) MU_ALL_FALSE = af (u_set u)) as Hs by apply has_af. unfold has in Hs.
+  destruct (u_wake u), (u_done u); destruct (band (u_set u) MU_ALL_FALSE =? 0) eqn:B; cbn [negb] in Hs; rewrite <- Hs;
+    cbv beta iota; rewrite K by (vm_compute; split; [discriminate | reflexivity]);
+    match goal with |- context [af ?c] => let v := eval vm_compute in (af c) in change (af c) with v end;
+    cbn [negb]; rewrite ?andb_false_r, ?andb_true_r, ?orb_false_r, ?orb_true_r; reflexivity.
+Qed.
